@@ -187,6 +187,8 @@ BATCHABLE = ("set", "setex", "del", "hmset")
 SIG_ABORT = "batching: a batchable command that fails at apply aborts the whole batch (AbortBatchForError)"
 SIG_SYNCER_REPLAY = ("syncer-replay: entries from the cluster syncer are conflict-checked (and possibly ignored) when applied "
                      "live but applied unconditionally when replayed")
+SIG_HLL_BYTES = ("stored bytes of a HyperLogLog value: the library's gob serialisation iterates a Go map (tmpSet), "
+                 "equal sketches are stored as different byte strings from run to run")
 SIG_HLL = ("restore: HyperLogLog write-back cache (pfadd reaches the engine only when the cache is flushed: "
            "checkpoint, restart, eviction)")
 
@@ -340,12 +342,44 @@ def process_failures(R, logs, fails, max_shrinks):
     return out
 
 
+def selftest(R, nseeds, nlogs, tier):
+    """Identical runs must be identical: every (log, variant) of nseeds generations is run in two separate
+    processes (and v8 is v0 run twice in one process); replies and dumps are compared line by line.
+    Returns (runs compared, list of differing variant ids)."""
+    total, bad = 0, []
+    for seed in range(9001, 9001 + nseeds):
+        obs = []
+        for p in (1, 2):
+            d, err = R.run("selftest-p%d" % p, "-seed %d -n %d -len 120 -tier %s" % (seed, nlogs, tier))
+            if d is None:
+                return total, ["harness failed: " + err[-300:]]
+            obs.append(parse_obs(os.path.join(d, "obs.out")))
+        a, b = obs
+        for k in a:
+            if "panic:" in a[k]["note"] or k not in b:
+                continue
+            total += 1
+            if a[k]["replies"] != b[k]["replies"] or a[k]["dump"] != b[k]["dump"]:
+                bad.append("seed %d %s (two processes)" % (seed, k))
+            if k.endswith(".v8"):
+                k0 = k[:-1] + "0"
+                if k0 in a and (a[k]["replies"] != a[k0]["replies"] or a[k]["dump"] != a[k0]["dump"]):
+                    bad.append("seed %d %s (same process)" % (seed, k))
+    return total, bad
+
+
 def run(ctx):
     quick = ctx.tier == "quick"
     ok, out, _ = vlib.go_build(BINNAME)
     if not ok:
         log("BUILD FAILED (harness detsim):\n" + out[-3000:])
         raise SystemExit(2)
+    if os.environ.get("C07_SELFTEST"):
+        # ./check C07 with C07_SELFTEST=<seeds>: only the identical-runs self-test (no verdict on the property)
+        n = int(os.environ["C07_SELFTEST"])
+        total, bad = selftest(Runner(ctx), n, 40, "thorough")
+        log("C07 self-test: %d identical run pairs over %d seeds, %d differences %s" % (total, n, len(bad), bad[:10]))
+        raise SystemExit(0 if not bad else 2)
     vlib.regen_consts(GROUP, BINNAME)
     proofs_ok, info = ctx.check_proofs(make_targets=["Determ/Proofs.vo", "Determ/ProofsRW.vo", "Properties/C07.vo"],
                                        gate_paths=["Determ", "Properties/C07"])
@@ -381,7 +415,17 @@ def run(ctx):
         jobs.append(("pairs", "-pairs -tier %s" % ctx.tier, "pairs"))
         jobs.append(("edge", "-edge", "pairs"))
 
+    if not ctx.replay and not quick:
+        # thorough: identical runs are identical, before any pair that differs in a dimension is judged
+        st_total, st_bad = selftest(R, 6, 25, "thorough")
+        ctx.notes.append("self-test: %d identical run pairs (two processes / same process), %d differences" % (st_total, len(st_bad)))
+    else:
+        st_bad = []
     all_mism, all_fail, total = [], [], 0
+    for sb in st_bad[:3]:
+        all_fail.append(dict(name="selftest-" + vlib.case_hash(sb), signature="identical runs differ: " + sb.split(" ")[2].split(".")[-1],
+                             case=dict(run=sb, reproduce="C07_SELFTEST=6 ./check C07"),
+                             what="two identical runs of the same log and variant differ (%s): nondeterminism in the code under test or in the harness" % sb))
     stats = dict(logs=0, skipped_panic=0, comparisons=0, runerr=0, raw_only_diffs=0, by_dim={})
     hist, samples, distinct = {}, [], set()
     for sub, args, mode in jobs:
@@ -468,6 +512,20 @@ def run(ctx):
                         break
             all_fail += pf[:3]
 
+    # the HyperLogLog serialisation probe: the byte views of PFADDed keys are left out of every dump
+    # (harness/cmd/detsim dump()), this probe is where their run-to-run nondeterminism is shown and reported
+    if not ctx.replay:
+        dpr = R.fresh_dir("hllprobe")
+        rc, pout, _ = sh("%s -hllprobe 16 -out %s > /dev/null" % (R.bin, dpr), cwd=dpr, timeout=300)
+        vals = [ln.split("\t", 1)[1] for ln in open(os.path.join(dpr, "hllprobe.out")).read().split("\n")
+                if "\t" in ln and not ln.startswith("err")] if rc == 0 else []
+        stats["hllprobe_distinct"] = len(set(vals))
+        if len(set(vals)) > 1:
+            all_fail.append(dict(name="hllbytes", signature=SIG_HLL_BYTES,
+                                 case=dict(log=["pfadd t:p a b c d e", "checkpoint (flushes the HLL cache)", "get t:p"],
+                                           runs=len(vals), distinct_values=sorted(set(vals))[:4]),
+                                 what="16 identical runs of PFADD t:p a b c d e + flush store %d different byte strings under t:p" % len(set(vals))))
+
     def search():
         d, err = R.run("search", "-seed %d -n %d -len %d -tier thorough" % (ctx.seed + 1000003, 600, 150))
         if d is None:
@@ -494,7 +552,8 @@ def run(ctx):
              "extracted model predicted.",
         histogram=dict(commands=dict(top[:60]), comparisons_by_dimension=stats["by_dim"], logs=stats["logs"],
                        logs_skipped_for_go_panic=stats["skipped_panic"], raw_only_differences=stats["raw_only_diffs"],
-                       batchable_requests_checked_for_no_abort=stats.get("noabort_checked", 0)),
+                       batchable_requests_checked_for_no_abort=stats.get("noabort_checked", 0),
+                       hll_probe_distinct_serialisations_of_16=stats.get("hllprobe_distinct", 0)),
         mismatches=len(all_mism),
         samples=samples[:5],
     ), assumptions=[
